@@ -1,6 +1,6 @@
 use std::collections::{HashMap, HashSet};
 
-use combine::{Parser, choice, many1, optional};
+use combine::{Parser, choice, many1, not_followed_by, optional};
 use redis_protocol::resp3;
 use redis_protocol::resp3::types::BytesFrame;
 use sierradb::StreamId;
@@ -151,7 +151,13 @@ impl Selector {
     // <stream_id_1> [PARTITION_KEY <pk_1>] <stream_id_2> [PARTITION_KEY <pk_2>]
     fn parser<'a>() -> impl Parser<FrameStream<'a>, Output = Self> + 'a {
         many1::<HashSet<_>, _, _>((
-            stream_id(),
+            // The words that start a clause of this command end the stream list; they are never
+            // stream ids.
+            not_followed_by(
+                choice((keyword("PARTITION_KEY"), keyword("FROM"), keyword("WINDOW")))
+                    .map(|_| "keyword"),
+            )
+            .with(stream_id()),
             optional(keyword("PARTITION_KEY").with(partition_key())),
         ))
         .map(|stream_ids| {
